@@ -237,11 +237,14 @@ def main():
         for f in c.get("failures", []):
             rt_fail_by_function.setdefault(c.get("function"), []).append((c["name"], f))
 
+    n_known_obl = 0
     for rec in ob_records:
         if rec["status"] == "sat":
             k = known_match("obligation", rec["name"])
             if k is not None:
                 matched_known.setdefault(k["id"], []).append(rec["name"])
+                rec["known_finding"] = k["id"]
+                n_known_obl += 1
                 continue
             fails = [(n, f) for n, f in rt_fail_by_function.get(rec["function"], [])
                      if known_match("rt", n, f.get("class")) is None]
@@ -305,7 +308,8 @@ def main():
     evals = sum(int(c.get("evaluations") or 0) for c in rt_checks)
     dn = sum(int(c.get("distinct_nontrivial") or 0) for c in rt_checks)
     coverage = {
-        "obligations": n_obl, "discharged": n_dis,
+        "obligations": n_obl - n_known_obl, "discharged": n_dis,
+        "obligations_failing_as_listed_known_findings": n_known_obl,
         "checker_cmd": "cd /verif && ./check %s --tier %s" % (prop, tier),
         "trusted_base": sorted(pm.get("assumes", [])) + sorted("assumed contract: " + a for a in assumed_contracts if any(t in a for t in pm.get("ext_used", [""]))),
         "functions_under_contract": functions,
